@@ -58,7 +58,7 @@ Deliver(f, bound) ==
             ELSE IF tl - hl < UdpHdrLen THEN [skip |-> TRUE]        \* no room for a UDP header
             ELSE LET dport == BE16(f, hl + 3)
                      dip == Sub(f, 17, 4)
-                 IN IF dport # bound.port \/ (bound.ip # <<>> /\ bound.ip # dip) THEN [skip |-> TRUE]
+                 IN IF (bound.port # -1 /\ dport # bound.port) \/ (bound.ip # <<>> /\ bound.ip # dip) THEN [skip |-> TRUE]   \* port -1: not bound at all
                     ELSE [skip |-> FALSE,
                           payload |-> SubSeq(f, hl + UdpHdrLen + 1, tl),      \* bounded by the IP total length
                           src |-> [ip |-> Sub(f, 13, 4), port |-> BE16(f, hl + 1)]]
